@@ -78,6 +78,10 @@ func mutate(r *hx.Rng, v *val) *val {
 		if r.Chance(1, 3) {
 			return &val{kind: 0, s: r.Pick(scalarPool)}
 		}
+		if r.Chance(1, 6) {
+			// the scalar wrapped into a sequence of one element: another value
+			return &val{kind: 1, elems: []*val{{kind: 0, s: v.s}}}
+		}
 		if r.Chance(1, 4) {
 			// the same text in another letter case: another value
 			sw := strings.ToUpper(v.s)
@@ -91,6 +95,10 @@ func mutate(r *hx.Rng, v *val) *val {
 		}
 		return &val{kind: 0, s: v.s}
 	case 1:
+		if len(v.elems) == 1 && v.elems[0].kind == 0 && r.Chance(1, 4) {
+			// the only element of a sequence on its own: another value
+			return &val{kind: 0, s: v.elems[0].s}
+		}
 		w := &val{kind: 1}
 		for _, e := range v.elems {
 			if r.Chance(1, 4) {
